@@ -70,7 +70,7 @@ Section File.
     assert (Hsp : IsSpecialScheme c u = true) by (unfold IsSpecialScheme; rewrite Esch; apply (R_file c R)).
     destruct (I_special _ _ Hi Hsp) as [Ho [Hpne [h [Eh _]]]].
     destruct (I_nocred _ _ Hi (or_intror (or_intror Hfile))) as [Huser [Hpass Hport]].
-    pose proof (host_facts c u h R Hi Ho Eh Hst) as HF.
+    pose proof (host_facts idna_raw c u h R Hi Ho Eh Hst Hfix) as HF.
     destruct (HF_file _ _ _ HF Hfile) as [Hdrive Hnl].
     pose proof (I_scheme _ _ Hi) as Hsch.
     destruct (I_host _ _ Hi h Eh) as [Hok _]. rewrite Hsp in Hok.
